@@ -253,6 +253,21 @@ func (n *Node) runBlockObserving(b *BlockSpec, watch [][]byte) *BlockObs {
 		return o
 	}
 	for _, t := range b.Txs {
+		var before map[string]AcctObs
+		if t.Evm != nil {
+			before = map[string]AcctObs{}
+			ac := n.App.VerifAcctCtrler()
+			addrs := append([][]byte(nil), watch...)
+			if t.Spec.Type == 6 && isZero(t.Spec.To) && len(t.Spec.From) == 20 {
+				created := ethcrypto.CreateAddress(common.BytesToAddress(t.Spec.From), t.Spec.Nonce)
+				addrs = append(addrs, created[:])
+			}
+			for _, a := range addrs {
+				if acct := ac.FindAccount(a, true); acct != nil {
+					before[string(a)] = AcctObs{Addr: a, Bal: acct.GetBalance().Dec(), Nonce: acct.GetNonce()}
+				}
+			}
+		}
 		d := n.Deliver(t.Spec.Type, t.Bytes)
 		o.Delivers = append(o.Delivers, d)
 		if t.Evm != nil && d.Panic == "" {
@@ -269,6 +284,7 @@ func (n *Node) runBlockObserving(b *BlockSpec, watch [][]byte) *BlockObs {
 						e.Accts = append(e.Accts, AcctObs{Addr: a, Bal: acct.GetBalance().Dec(), Nonce: acct.GetNonce()})
 					}
 				}
+				e.Pure = pureJudgement(before, e, t.Spec, d.GasUsed)
 			}
 			t.Evm = e
 		}
